@@ -678,16 +678,9 @@ Lemma cpp_keyset_guarded : keyset_guarded cpp_support_side cpp_type_side = true.
 Proof. vm_compute. reflexivity. Qed.
 
 (* ---- what is interpolated into the string literals of the assertion messages ---- *)
-Lemma msg_safe_spec sd : msg_literal_safe sd = true ->
-  forall e, In e (sd_msg_exprs sd) -> In e safe_msg_exprs \/ In e raw_path_msg_exprs.
+Lemma msg_safe_spec sd : msg_literal_safe sd = true -> forall e, In e (sd_msg_exprs sd) -> In e safe_msg_exprs.
 Proof.
-  unfold msg_literal_safe. rewrite forallb_forall. intros H e He. specialize (H e He).
-  apply orb_prop in H as [H|H]; [left | right]; apply str_in_spec; assumption.
-Qed.
-
-Lemma msg_escaped_spec sd : msg_path_escaped sd = true -> forall e, In e (sd_msg_exprs sd) -> In e safe_msg_exprs.
-Proof.
-  unfold msg_path_escaped. rewrite forallb_forall. intros H e He. apply str_in_spec. apply H. assumption.
+  unfold msg_literal_safe. rewrite forallb_forall. intros H e He. apply str_in_spec. apply H. assumption.
 Qed.
 
 Lemma all_messages_literal_safe :
@@ -696,9 +689,23 @@ Proof. vm_compute. reflexivity. Qed.
 
 (* an option value is never among the literal-safe expressions *)
 Lemma value_not_literal_safe :
-  str_in [118; 97; 108; 117; 101] (safe_msg_exprs ++ raw_path_msg_exprs) = false /\
-  str_in sav_expr (safe_msg_exprs ++ raw_path_msg_exprs) = false.
+  str_in [118; 97; 108; 117; 101] safe_msg_exprs = false /\ str_in sav_expr safe_msg_exprs = false.
 Proof. vm_compute. split; reflexivity. Qed.
+
+(* the path pieces go through a chain that yields a valid literal body for every hostile path of <= 5 characters *)
+Lemma all_paths_escaped : forallb path_escape_ok [c_support_side; c_type_side; cpp_support_side; cpp_type_side] = true.
+Proof. vm_compute. reflexivity. Qed.
+
+(* facts about escape chains (independent of the tree): backslash + double quote alone is NOT enough under the ISO
+   modes, because of the trigraph ??/ (finding F-OPTGUARD-TRIGRAPH, witness a??/u); adding ? -> \? is *)
+Definition chain_bq : list (N * str) := [(92, [92; 92]); (34, [92; 34])].
+Definition chain_bqq : list (N * str) := chain_bq ++ [(63, [92; 63])].
+Lemma chain_facts :
+  escape_quote_safe chain_bq = true /\ escape_trigraph_safe chain_bq = false /\
+  lit_ok (detrigraph (apply_escape chain_bq [97; 63; 63; 47; 117])) = false /\
+  escape_quote_safe chain_bqq = true /\ escape_trigraph_safe chain_bqq = true /\
+  escape_quote_safe [] = false.
+Proof. vm_compute. repeat split; reflexivity. Qed.
 
 (* ---- the guard statements are live C / C++ ---- *)
 Lemma all_sides_live : forallb side_live [c_support_side; c_type_side; cpp_support_side; cpp_type_side] = true.
